@@ -1058,6 +1058,12 @@ func (c *BytecodeCompiler) compileMethodBody(location *position.Location, parame
 				c.emit(location.StartPos.Line, bytecode.PROMISE)
 				c.emit(location.EndPos.Line, bytecode.RETURN)
 			}
+			if c.isGenerator || c.isAsync {
+				// the RETURN of the prologue does not belong to the body,
+				// a `return` in the first statement has to be compiled
+				c.lastOpCode = bytecode.NOOP
+				c.secondToLastOpCode = bytecode.NOOP
+			}
 			c.bytecode.SetParameterCount(paramCount)
 
 			c.compileStatements(body, location, false)
